@@ -14,6 +14,12 @@ CLAIMED = {
  'C03': dict(design='4/C03', technique='TLA+ definitional semantics with prefix-cutting stream operators, model-checked over producer/consumer programs with bombs by TLC; vectors replayed by pulling exactly the specified prefix from the real iterator',
    text='TLC enumerates all small producer programs with bombs (error, build-time and pull-time divergence, infinite generators) under every prefix consumer, in value and in path mode; where the specification gives a definite prefix the real iterator is pulled exactly that far and must deliver it without error, hang or crash.',
    note='input-consuming bombs are covered at CLI level (C17); hang detection by timeout; same trusted base as C01'),
+ 'C10': dict(design='4/C10', technique='TLA+ position model (JaqValues Index/Slice/Has, JaqSem IterUpd/IndexUpd/SliceUpd) enumerated exhaustively over containers x positions x operations by TLC with consistency invariants; every state replayed on the library',
+   text='Exhaustive over all arrays/text strings (1-4 byte characters and an invalid byte)/byte strings up to the size bound, small objects with arbitrary keys, all positions and bounds in -5..5 and null, wrongly typed positions, and update filters with 0/1/2 outputs, wrong kind or error; the model is checked for internal consistency by TLC and each case is replayed on the real code.',
+   note='big-integer positions are in C09; object key order after deletion left open; same trusted base as C01'),
+ 'C11': dict(design='4/C11', technique='each defining equation of the manual is a TLC invariant lhs = rhs over enumerated argument streams, counts and inputs; both sides replayed on the library',
+   text='TLC instantiates every documented equation (limit/skip, first, last, nth, isempty, any/all, add, select, error, reduce/foreach expansions, range/1,2,3 = while definition, repeat, recurse, while, until, empty) with all small argument streams containing errors, empties and multiplicities and counts around 0 and the stream length, proves lhs = rhs on the specification and replays both sides on the real code.',
+   note='counts beyond 2^31 are in C09; same trusted base as C01'),
 }
 
 checks = []
